@@ -210,6 +210,8 @@ package keeper
 //@ end
 
 // Which providers take part in a batch and what the consumer is charged for it.
+// a is an address that an available binding of service s names as its provider
+//@ define eligibleFor(B, s, a) = exists p:Bytes :: has(B, s, p) && get(B, s, p).Available && a == addr(get(B, s, p).Provider)
 //@ func Keeper.FilterServiceProviders(ctx, serviceName, providers, timeout, serviceFeeCap, consumer)
 //@   property C07
 //@   returns selected, total, rawDenom, err
@@ -218,6 +220,9 @@ package keeper
 //@   invariant #1 charges_recorded_fee: rangeindex == 0 && len(newProviders) == 1 ==> newProviders[0] == providers[0]
 //@                       && (forall d:Str :: amt(totalPrices, d) == FEE(consumer, serviceName, providers[0], d))
 //@   invariant #1 sel:  len(newProviders) <= rangeindex + 1 && len(newProviders) >= 0
+//@   invariant #1 elig: forall j:Int :: 0 <= j && j < len(newProviders) ==> eligibleFor(bindings, serviceName, newProviders[j])
+// only providers with an available binding are selected (the charge covers these and no others: C07, C08)
+//@   ensures only_eligible: err == nil ==> (forall j:Int :: 0 <= j && j < len(selected) ==> eligibleFor(bindings, serviceName, selected[j]))
 // nobody selected: nothing is charged
 //@   ensures none_selected: err == nil && len(selected) == 0 ==> (forall d:Str :: amt(total, d) == 0)
 // one candidate, selected: the charge is the fee that buildRequest records on the request
@@ -409,9 +414,11 @@ package keeper
 //@ end
 
 // Start: only a paused context; it becomes running and gets a new batch at the current height unless one is already
-// scheduled (new-batch queue) or still in flight (expiration queue) - never a second entry.
+// scheduled (new-batch queue) or still in flight (expiration queue) - never a second entry. (C07: a batch opened while
+// the previous one is in flight would be the one the pending expiration entry settles, and the requests of the previous
+// batch would never be refunded.)
 //@ func Keeper.StartRequestContext(ctx, requestContextID, consumer)
-//@   property C08, C13
+//@   property C07, C08, C13
 //@   returns err
 //@   requires height >= 0
 //@   modifies contexts, newBatch, newBatchH
@@ -714,9 +721,11 @@ package keeper
 // slate - counter advanced by one, batch running, no response counted yet, as many requests as providers, the context's
 // response threshold - so that "all answered" and the threshold are judged on this batch alone.
 //@ func Keeper.InitiateRequests(ctx, requestContextID, providers, providerRequests)
-//@   property C08, C13
+//@   property C07, C08, C13
 //@   returns ids
 //@   requires height >= 0 && endBlockInv
+// requests are addressed only to providers that passed the filter the charge was computed from
+//@   requires forall j:Int :: 0 <= j && j < len(providers) ==> eligibleFor(bindings, ite(has(contexts, requestContextID), CTX(requestContextID).ServiceName, ""), providers[j])
 //@   requires forall r:Bytes :: has(activeByID, r) ==> get(activeByID, r).Value == r
 //@   let c0 = CTX(requestContextID)
 //@   modifies requests, contexts, activeByID, activeByB, volumes
